@@ -10,6 +10,7 @@
 import NemoVerif.Lemmas.Bind
 import NemoVerif.Lemmas.BindHeap
 import NemoVerif.Lemmas.BindSurplus
+import NemoVerif.Lemmas.BindProgress
 namespace NemoVerif.C08
 open NemoVerif NemoVerif.Bind
 
@@ -425,6 +426,33 @@ example :
   · simp [exec, s0, s2, f1, pf, St.setCtx, St.ctxOf, findInst, replaceInst, returnCtx, St.evalIn, eval, Bind.set, returnKey]
   · simp [s0, s2, findInst]
   · simpa [s0, s2, St.ctxOf, findInst] using pf_handshake
+/-- **Progress of the caller, full strength for flows without parameters** (`$x = await f`): if the callee's
+    synchronous run ends `finished` with `_return_value = v`, the `await` RETURNS: the caller continues with the
+    statements after the call, in the state the callee left, and `$x` reads `v`.  The two internal-event matches
+    are proved to succeed (`handshake_noargs`, `finishedMatch_noargs`: symbolic evaluation of the C04 matcher model
+    for every flow name, uid, callee context and returned value), using that `exec` never changes an instance's
+    `flowId` / `arguments` (`exec_sameShape`, induction over whole executions). -/
+theorem await_progress_noargs (flows : List (String × FlowDef)) (fuel : Nat) (s : St) (u : Nat) (x flow : String)
+    (rest : List Stmt) (body : List Stmt) (s2 : St) (v : Val) (hfresh : Fresh s)
+    (hd : findFlow flow flows = some { params := [], rets := [], body := body })
+    (hrun : exec flows fuel { s with insts := s.insts ++ [(s.next, { flowId := flow, arguments := [], context := [], parent := some (uidVal u) })], next := s.next + 1 }
+        s.next body = (s2, .finished))
+    (hret : lookup returnKey (s2.ctxOf s.next) = some v) :
+    exec flows (fuel + 1) s u (.call .await (some x) flow [] [] :: rest) =
+      exec flows fuel (s2.setCtx u (assignCtx x v s2.globals (s2.ctxOf u)).1 (assignCtx x v s2.globals (s2.ctxOf u)).2) u rest ∧
+    evalVar (assignCtx x v s2.globals (s2.ctxOf u)).1 (assignCtx x v s2.globals (s2.ctxOf u)).2 x = v :=
+  await_progress_noargs_core flows fuel s u x flow rest body s2 v hfresh hd hrun hret
+
+/-- non-vacuity: `flow fa: return 7`, `main: $x = await fa` from the initial state -/
+example : Fresh s0 ∧ findFlow "fa" fl = some { params := [], rets := [], body := [.ret (.lit (.int 7))] } ∧
+    exec fl 1 { s0 with insts := s0.insts ++ [(s0.next, { flowId := "fa", arguments := [], context := [], parent := some (uidVal 0) })], next := s0.next + 1 }
+      s0.next [.ret (.lit (.int 7))] = (s2, .finished) ∧
+    lookup returnKey (s2.ctxOf s0.next) = some (.int 7) := by
+  refine ⟨?_, by simp [findFlow, fl], ?_, ?_⟩
+  · intro x hx; simp [uids, s0] at hx; simp [hx, s0]
+  · simp [exec, s0, s2, pf, St.setCtx, St.ctxOf, findInst, replaceInst, returnCtx, St.evalIn, eval, Bind.set, returnKey]
+  · simp [s0, s2, pf, St.ctxOf, findInst, lookup]
+
 /-! ## Surplus positional arguments (observed behaviour, outside the statement): exact characterisation -/
 
 /-- **Surplus positionals, exactly** (every signature with distinct names, every number `k` of contiguous
